@@ -32,6 +32,10 @@ WIDE = []
 for _w in list(range(1001, 1041)) + [1999, 2000, 2001, 9999, 10000, 10001, 19999, 20000, 99999, 100001, 199999, 999999, 1000001, 1999999]:
     for _lo in (0, 1, -1000, -(_w // 2)):
         WIDE.append((_lo, _lo + _w))
+# wide ranges far from zero: lo + hi lies beyond 2**53, where float arithmetic on the bounds is no longer exact
+for _lo, _w in [(1, 2 * 10**17), (2**53 + 1, 1001), (2**53 + 1, 1003), (10**17 + 3, 10**17 + 4), (MAXSIZE - 2001, 2001), (MAXSIZE - 1001, 1001),
+                (-(MAXSIZE - 1), 1001), (-(MAXSIZE - 1), 2 * 10**17 + 1), (-(2**62) - 1, 2**61 + 3), (3 * 2**60 + 1, 2**60 + 2**10 + 1)]:
+    WIDE.append((_lo, _lo + _w))
 FBOUNDS = [(0.0, 1.0), (-1.0, 1.0), (1.5, 1.5), (9.0, 10.0), (-100.0, 100.0), (3.14, 3.14), (7.7, 7.7), (1 / 3, 1 / 3),
            (sys.float_info.max, sys.float_info.max), (-2.718, -2.718), (0.1, 0.1000001), (1e-300, 2e-300)]
 
@@ -58,6 +62,14 @@ def units(tier, seed):
            [0, 0.2, 0.7, 0.1], [0] + [0.1] * 10, [0.1] * 10 + [0], [0, 0.7, 0.2, 0.1]]
     for v in big:
         us.append({"kind": "weighted", "weights": v, "full": tier != "quick" and sum(v) <= 2})
+    # two weighted choices on ONE source: the second call must depend on its own arguments only (the same weight /
+    # option list object mutated in place between the calls, or a fresh list)
+    small = {k: [list(v) for v in itertools.product([0, 1, 2], repeat=k) if any(v)] for k in (2, 3)}
+    for k in (2, 3):
+        for mode in ("weights-in-place", "options-in-place", "fresh-lists"):
+            for w1 in small[k]:
+                us.append({"kind": "weighted-seq", "mode": mode, "w1": [x * 1e-5 for x in w1],
+                           "w2s": [[x * 1e-5 for x in w2] for w2 in small[k]]})
     for src in ("ge", "stack", "sge", "dsge", "sge-uneven"):
         for L in (1, 2, 3):
             us.append({"kind": "wrapper", "src": src, "L": L})
@@ -195,6 +207,53 @@ def run_unit(unit) -> UnitResult:
         r.states = len(got)
         r.abstracted = st.abstracted_points
         r.samples.append({"weights": ws, "counts": dict(got), "complete": unit["full"]})
+    elif k == "weighted-seq":
+        w1, mode = unit["w1"], unit["mode"]
+        n = len(w1)
+        outcomes = set()
+        for w2 in unit["w2s"]:
+            opts1 = [f"o{i}" for i in range(n)]
+            opts2 = list(reversed(opts1)) if mode == "options-in-place" else list(opts1)
+
+            def prog(s, w1=w1, w2=w2, opts1=opts1, opts2=opts2):
+                wl, ol = list(w1), list(opts1)
+                a = s.choice_weighted(ol, wl)
+                if mode == "weights-in-place":
+                    wl[:] = w2
+                elif mode == "options-in-place":
+                    wl[:] = w2
+                    ol[:] = opts2
+                else:
+                    wl, ol = list(w2), list(opts2)
+                return a, s.choice_weighted(ol, wl)
+
+            got = Counter()
+            st2 = ExploreStats()
+            for ex in explore(prog, stats=st2, max_execs=10**5):
+                r.executions += 1
+                if ex.exc is not None or ex.result[0] not in opts1 or ex.result[1] not in opts1:
+                    r.add_violation(V("RandomSource.choice_weighted", "second-call-not-a-member", {"mode": mode}, dict(w0, w2=w2, choices=list(ex.choices)),
+                                      f"{w1} then {w2}: {ex.result!r} {ex.exc!r}"))
+                    continue
+                a, b = ex.result
+                got[b] += 1
+                outcomes.add((a, b))
+                if w2[opts2.index(b)] == 0:
+                    r.add_violation(V("RandomSource.choice_weighted", "second-call-zero-weight-returned", {"mode": mode}, dict(w0, w2=w2, choices=list(ex.choices)),
+                                      f"weights {w1} were drawn from first, then the lists were set to {opts2} / {w2} ({mode}) on the same source: "
+                                      f"option {b} of weight 0 returned"))
+            tot = sum(got.values())
+            for o, wgt in zip(opts2, w2):
+                want, have = wgt / sum(w2), got[o] / max(tot, 1)
+                if not st2.truncated and abs(want - have) > 1.0 / max(tot, 1) + 1e-12:
+                    r.add_violation(V("RandomSource.choice_weighted", "second-call-not-proportional", {"mode": mode}, dict(w0, w2=w2),
+                                      f"after a draw from {w1}, weights {w2} ({mode}): option {o} returned for {got[o]}/{tot} of the draws, expected share {want:.6f}"))
+            if any(x == 0 for x in w2) and w2 != w1:
+                r.nontrivial += 1
+            st.executions += st2.executions
+        r.states = len(outcomes)
+        r.count("weighted_two_call_sequences", len(unit["w2s"]))
+        r.samples.append({"w1": w1, "mode": mode, "second_weight_vectors": len(unit["w2s"]), "distinct_outcome_pairs": len(outcomes)})
     elif k == "wrapper":
         L = unit["L"]
         alpha = [0, 1, 2, 3, 7, 1000, 1001, 1023, 1024, 1025, MAXSIZE - 1, MAXSIZE]
